@@ -211,7 +211,7 @@ BAD_ARGS = [['--frobnicate'], ['-n'], ['-n', '0'], ['-n', '-3'], ['-n', 'abc'], 
 OPT_NAMES = ['--format', '-f', '--type', '--gpo', '--gpe', '--tgpe', '-n', '--nthreads', '--set', '-i', '--in', '--input', '--infile', '-o', '--out', '--output', '--outfile',
              '-q', '--quiet', '--showw', '-h', '--help', '-v', '-V', '--version', '--changename', '--reformat', '-x', '--', '-', '---', '--gp', '--t', '-nthreads', '-format']
 OPT_VALUES = ['', ' ', '0', '1', '-1', '4', '64', '100000', '2147483648', '-2147483649', '1e9', '1e10', '0.0', '-0.0', '5.5', 'nan', 'inf', '-inf', '0x10', '1,5', 'abc', 'fasta', 'fa', 'msf', 'clu',
-              'clustal', 'FASTA', 'mSf', 'dna', 'rna', 'protein', 'divergent', 'internal', 'DNA', 'prot', 'in.dat', 'missing.fa', 'res', 'out.afa', 'res/out.afa', '/', '.', '..', 'a' * 300, 'b' * 520, 'c' * 700, 'd' * 3000, './' * 350 + 'in.dat', '%s%n%d', '\xff\xfe', '-q', '--gpo']
+              'clustal', 'FASTA', 'mSf', 'dna', 'rna', 'protein', 'divergent', 'internal', 'DNA', 'prot', 'in.dat', 'missing.fa', 'res', 'out.afa', 'res/out.afa', '/', '.', '..', 'a' * 300, 'b' * 520, 'c' * 700, 'd' * 3000, './' * 350 + 'in.dat', '%s%n%d', '50%similar.msf', 'cov%c.msf', '\xff\xfe', '-q', '--gpo']
 
 
 CUT = b'\x01NEXT-FILE\x01'
@@ -282,7 +282,7 @@ def gen_spec(prop, rng, tier):
     nthreads = rng.choice([1, 2, 4, 8])
     spec = {'kind': 'C05', 'prop': 'C05', 'cls': cls, 'mode': mode, 'wl': wl, 'fmt_in': fmt_in, 'fmt_out': fmt_out, 'muts': muts,
             'data': data.decode('latin-1'), 'nthreads': nthreads, 'quiet': rng.choice([1, 1, 0]),
-            'world': gen.gen_world(rng), 'junk2': rng.getrandbits(62), 'vg': vg, 'extra_args': [], 'outpath': rng.choice(['out.afa', 'out.afa', None, 'res/out.afa'])}
+            'world': gen.gen_world(rng), 'junk2': rng.getrandbits(62), 'vg': vg, 'extra_args': [], 'outpath': rng.choice(['out.afa', 'out.afa', None, 'res/out.afa', 'res/out.afa', '50%similar.out', 'res/%n%s%s%s.x'])}
     if cls == 'options':
         spec['extra_args'] = rng.choice(BAD_ARGS)
         if rng.random() < 0.3:
